@@ -94,6 +94,24 @@ func main() {
 	vlib.SeqsParallel(tokens, renderLen, workers, func(_ int, s string) { checkOne(s, true) })
 	vlib.SeqsParallel(chars, charLen, workers, func(_ int, s string) { checkOne(s, true) })
 
+	// histories: templ.URL(a) immediately followed by templ.URL(b) on one goroutine pinned to its thread (so that
+	// anything pooled or memoised by the first call is met by the second), for every pair of token strings ≤ 2
+	{
+		var short []string
+		vlib.Seqs(tokens, 2, func(s string, _ []int) bool { short = append(short, s); return true })
+		runtime.LockOSThread()
+		pairs := 0
+		for _, a := range short {
+			for _, b := range short {
+				templ.URL(a)
+				checkOne(b, false)
+				pairs++
+			}
+		}
+		runtime.UnlockOSThread()
+		run.Cov["two_call_histories"] = pairs
+	}
+
 	// every single-token insertion / replacement / deletion in known XSS vectors
 	vectors := []string{
 		"javascript:alert(1)", "JaVaScRiPt:alert(1)", " javascript:alert(1)", "java\tscript:alert(1)", "java\nscript:alert(1)",
